@@ -8,6 +8,7 @@ import (
 	"fmt"
 	"slices"
 	"strings"
+	"unicode"
 )
 
 // AuditEngineStatus represents the functionality
@@ -187,10 +188,17 @@ func ParseAuditLogParts(opts string) (AuditLogParts, error) {
 
 	// Validate the middle parts (everything between A and Z)
 	middleParts := opts[1 : len(opts)-1]
+	seen := map[rune]struct{}{}
 	for _, p := range middleParts {
-		if !slices.Contains(orderedAuditLogParts, AuditLogPart(p)) {
+		// the conversion to AuditLogPart truncates: only ASCII letters can name a part
+		if p > unicode.MaxASCII || !slices.Contains(orderedAuditLogParts, AuditLogPart(p)) {
 			return AuditLogParts(""), fmt.Errorf("invalid audit log parts %q", opts)
 		}
+		// a part listed twice would be rendered (and its messages collected) twice
+		if _, dup := seen[p]; dup {
+			return AuditLogParts(""), fmt.Errorf("duplicated audit log part %q in %q", p, opts)
+		}
+		seen[p] = struct{}{}
 	}
 	// Return all parts including A and Z
 	return AuditLogParts(opts), nil
@@ -220,7 +228,7 @@ func ApplyAuditLogParts(base AuditLogParts, modification string) (AuditLogParts,
 		if p == 'A' || p == 'Z' {
 			return nil, fmt.Errorf("audit log parts A and Z are mandatory and cannot be modified")
 		}
-		if !slices.Contains(orderedAuditLogParts, AuditLogPart(p)) {
+		if p > unicode.MaxASCII || !slices.Contains(orderedAuditLogParts, AuditLogPart(p)) {
 			return nil, fmt.Errorf("invalid audit log part %q", p)
 		}
 	}
